@@ -31,9 +31,11 @@ ASSUMPTIONS = [
 ]
 OPEN = open_ids(ID)
 
-NAMES = ["a", "ab", "a/b", "a/b/c", "a/bc", "d e", "x+y", "q.r", "z(1)", "m", "m/n", "Drafts", "INBOX", "inbox"]
+NAMES = ["a", "ab", "a/b", "a/b/c", "a/bc", "d e", "x+y", "q.r", "z(1)", "m", "m/n", "Drafts", "INBOX", "inbox",
+         # SQL GLOB / LIKE metacharacters in names (seeded/C17-2): g[1] has a child, g? has none but "gx/k" would match it as a glob
+         "g[1]", "g[1]/k", "g?", "gx/k", "p_q", "pxq/k"]
 SPECIAL = ["Junk", "Archive", "Sent Messages", "Drafts", "Deleted Messages"]
-PATTERNS = ["*", "%", "a%", "a*", "%/%", "a/%", "a/*", "*b", "%b", "a/b", "a", "INBOX", "inbox", "InBoX", "IN%", "d%", "x+y", "q%r", "qXr", "z(1)", "%/b/%", "m/%", "*/n", "D*", "%e*"]
+PATTERNS = ["*", "%", "g%", "p%", "a%", "a*", "%/%", "a/%", "a/*", "*b", "%b", "a/b", "a", "INBOX", "inbox", "InBoX", "IN%", "d%", "x+y", "q%r", "qXr", "z(1)", "%/b/%", "m/%", "*/n", "D*", "%e*"]
 
 
 RELATED = [(i, j) for i, a in enumerate(NAMES) for j, b in enumerate(NAMES) if i != j and (b.startswith(a + "/") or a.startswith(b + "/"))]
